@@ -83,7 +83,12 @@ class Parser(object):
         t.lexer.lineno += len(t.value)
 
     def t_comment(self, t):
-        r'/\*(.|\n)*?\*/'
+        r'/\*[^*]*\*+(?:[^/*][^*]*\*+)*/'
+        t.lexer.lineno += t.value.count('\n')
+
+    def t_unterminated_comment(self, t):
+        r'/\*(.|\n)*'
+        self._parser_error("comment is not terminated", t.lexer.lineno, t.lexpos)
         t.lexer.lineno += t.value.count('\n')
 
     def t_linecomment(self, t):
